@@ -133,6 +133,20 @@ def discharge(P, s):
         kind = t["kind"]
         if kind == "BoundsCheck" and len(ops) == 2:
             ln, ix = strip_sites(ops[0]), strip_sites(ops[1])
+            # `for i in 0..N { arr[i] }` over an array of length N: the index is an element of the range 0..len
+            ixp = B.peel(ix)
+            if ixp.op == "field" and ixp.a[1] == "0" and ixp.a[0].op == "downcast" and ixp.a[0].a[1] == "Some":
+                nx = B.peel(ixp.a[0].a[0])
+                if nx.op == "call" and B.cname(nx) == "Iterator::next" and nx.a[1]:
+                    src = B.peel(nx.a[1][0])
+                    if src.op == "loop":
+                        src = B.peel(src.a[2])
+                    while src.op == "call" and B.cname(src) in ("IntoIterator::into_iter",) and len(src.a[1]) == 1:
+                        src = B.peel(src.a[1][0])
+                    if src.op == "agg" and src.a[0][0] == "adt" and src.a[0][1] == "Range" and len(src.a[1]) == 2:
+                        lo_, hi_ = src.a[1]
+                        if B._const_int(lo_) is not None and B._const_int(lo_) >= 0 and (strip_sites(hi_) == ln or (B._const_int(hi_) is not None and B._const_int(ln) is not None and B._const_int(hi_) <= B._const_int(ln))):
+                            return ("range-index", "index ranges over %s..len of the indexed array" % B._const_int(lo_))
             ci = B._const_int(ix)
             # constant index into a fixed-size array
             cl = B._const_int(ln)
